@@ -4,6 +4,7 @@ package jd
 
 func init() {
 	vHarnesses["VerifC15History"] = VerifC15History
+	vHarnesses["VerifC15Render"] = VerifC15Render
 	vHarnesses["VerifC15MapOrder"] = VerifC15MapOrder
 	vHarnesses["VerifC15MapOrderSets"] = VerifC15MapOrderSets
 	vHarnesses["VerifC15Canary"] = VerifC15Canary
@@ -179,4 +180,50 @@ func VerifC15Canary() {
 	a, b := vNumArray(2), vNumArray(2)
 	d := a.Diff(b)
 	vAssert(d.Render() == "", "canary: diffs render to nothing")
+}
+
+// VerifC15Render: Json() and Yaml() of a fixed set of documents (a bare string, containers
+// holding a string longer than a YAML line, a number) are called in a solver-chosen order and
+// number of times; every call must return what the first call on that document returned —
+// rendering one document must not influence the rendering of another (hidden state in the
+// codecs included).
+func VerifC15Render() {
+	long := "aaaa bbbb cccc dddd eeee ffff gggg hhhh iiii jjjj kkkk llll mmmm nnnn oooo pppp qqqq rrrr ssss tttt uuuu"
+	docs := []JsonNode{
+		jsonString("c"),
+		jsonObject{"k": jsonString(long)},
+		jsonArray{jsonString(long), jsonBool(true)},
+		jsonString(long),
+		jsonObject{"n": vNum(), "s": jsonString("x y")},
+		jsonNull(nil),
+	}
+	n := len(docs)
+	firstY := make([]string, n)
+	firstJ := make([]string, n)
+	seenY := make([]bool, n)
+	seenJ := make([]bool, n)
+	h := vParam("H", 3)
+	for step := 0; step < h; step++ {
+		i := vChoice(n)
+		if vChoice(2) == 0 {
+			y := docs[i].Yaml()
+			if seenY[i] {
+				vAssert(y == firstY[i], "Yaml() of an unchanged document differs from its first rendering")
+			} else {
+				firstY[i], seenY[i] = y, true
+			}
+		} else {
+			j := docs[i].Json()
+			if seenJ[i] {
+				vAssert(j == firstJ[i], "Json() of an unchanged document differs from its first rendering")
+			} else {
+				firstJ[i], seenJ[i] = j, true
+			}
+		}
+	}
+	// the obligation that is always reached: rendering twice in a row gives the same text
+	k := vChoice(n)
+	vAssert(docs[k].Yaml() == docs[k].Yaml(), "two consecutive Yaml() calls differ")
+	vAssert(docs[k].Json() == docs[k].Json(), "two consecutive Json() calls differ")
+	vCover("c15.render")
 }
